@@ -106,6 +106,18 @@ FAULTS = {
     "or-type-mismatch": ['x30: int = (o) or "x"'],
     "from-bound-str": ['from 0 to "a" {', "}"],
     "from-step-str": ['from 0 to 3 step "a" {', "}"],
+    "unpack-non-list": ["[u1, u2] = n"],
+    "unpack-too-many": ["const [u3, u4, u5] = fx"],
+    "unpack-map": ["[u6] = m"],
+    "unpack-fn": ["[u7] = f"],
+    "init-byte-too-wide": ["w20: byte = 0b111111111"],
+    "init-int-hex-too-wide": ["w21: int = 0xFFFFFFFFFFFFFFFFFFFFFFFFFFFFFFFFF"],
+    "init-bigint-hex-too-wide": ["w22: bigint = B0xFFFFFFFFFFFFFFFFFFFFFFFFFFFFFFFFF"],
+    "class-two-constructors": ["class C2 {", "\tconstructor(self) {}", "\tconstructor(self, a: int) {}", "}"],
+    "class-member-untyped": ["class C3 {", "\tvv", "\tconstructor(self) {}", "}"],
+    "class-member-unknown-type": ["class C4 {", "\tvv: Zork", "\tconstructor(self) {}", "}"],
+    "class-method-wrong-return": ["class C5 {", "\tconstructor(self) {}", "\tfn m5(self) -> int {", '\t\treturn "x"', "\t}", "}"],
+    "class-field-init-wrong-type": ["class C6 {", "\tvv: int", "\tconstructor(self) {", '\t\tself.vv = "x"', "\t}", "}"],
     "break-outside-loop": ["break"],
     "continue-outside-loop": ["continue"],
 }
